@@ -105,6 +105,16 @@ def sprinkle_uni(prog, rng, p=0.15):
     return prog
 
 
+def add_nested_tool_imports(f, rng):
+    """the file imports the names the tool may have to add (HasRepr, external) only BELOW module level: inside an older hand-written test,
+    or in an `if TYPE_CHECKING:` block - neither binds the name at module level at run time"""
+    h = f.setdefault("header", {})
+    if rng.random() < 0.5:
+        h["post"] = list(h.get("post", [])) + ["", "def test_zz_older_hand_written():", "    from inline_snapshot import HasRepr, external", "", "    assert HasRepr is not None and external is not None"]
+    else:
+        h["pre"] = list(h.get("pre", [])) + ["import typing", "if typing.TYPE_CHECKING:", "    from inline_snapshot import HasRepr, external"]
+
+
 def add_twin_file(prog, rng, vary=True):
     """a second file with the SAME text layout as the first one: identical function names on identical lines (copied / generated test
     modules, one per backend), optionally with other integer data.  Site and event ids get a suffix, the rendered names stay."""
